@@ -29,9 +29,10 @@ const (
 	opSleep
 	opYield
 	opResume
+	opSelect
 )
 
-var opNames = [...]string{"start", "send", "recv", "close", "lock", "rlock", "wgwait", "sleep", "yield", "resume"}
+var opNames = [...]string{"start", "send", "recv", "close", "lock", "rlock", "wgwait", "sleep", "yield", "resume", "select"}
 
 type op struct {
 	kind  opKind
@@ -42,6 +43,16 @@ type op struct {
 	wg    *wgState
 	wake  time.Time
 	label string
+	// select
+	cases      []selCase
+	hasDefault bool
+}
+
+type selCase struct {
+	send bool
+	ch   *chanState
+	val  interface{}
+	vh   uint64
 }
 
 type thread struct {
@@ -54,6 +65,8 @@ type thread struct {
 	result   interface{}
 	resH     uint64
 	ok       bool
+	selIdx   int
+	low      bool // scheduled only when no normal thread can run, in the default order
 	inject   string // runtime panic to raise inside the thread when it resumes
 	parkSeq  int
 	hist     uint64
@@ -66,6 +79,14 @@ type chanState struct {
 	buf    []interface{}
 	bufH   []uint64 // hashes of buf, in step
 	closed bool
+	// timer channels (mcrt.After): the single value may be delivered at any
+	// step; the virtual clock then jumps to the wake time
+	timer bool
+	fired bool
+	wake  time.Time
+	// pin keeps the real channel alive: the side table is keyed by its address,
+	// which the garbage collector must not hand to another channel meanwhile
+	pin interface{}
 }
 
 type muState struct {
@@ -276,6 +297,11 @@ func (s *Sched) stateKey(env bool) uint64 {
 			if t.pend.kind == opSleep {
 				h = mix(h, uint64(t.pend.wake.UnixNano()))
 			}
+			for _, c := range t.pend.cases {
+				if c.ch != nil {
+					h = mix(h, uint64(c.ch.id)+1, c.vh)
+				}
+			}
 		}
 	}
 	ids := make([]*chanState, len(s.chans))
@@ -286,6 +312,12 @@ func (s *Sched) stateKey(env bool) uint64 {
 		h = mix(h, uint64(c.cap)+1, uint64(len(c.buf)))
 		if c.closed {
 			h = mix(h, 0xC1)
+		}
+		if c.timer {
+			h = mix(h, 0x71, uint64(c.wake.UnixNano()))
+			if c.fired {
+				h = mix(h, 0xF1)
+			}
 		}
 		for _, v := range c.bufH {
 			h = mix(h, v)
@@ -409,16 +441,10 @@ func (s *Sched) enabled(t *thread) bool {
 		if o.ch == nil {
 			return false
 		}
-		if o.ch.closed {
-			return true
-		}
-		if !s.firstWaiter(t, opSend, o.ch) {
+		if !o.ch.closed && !s.firstWaiter(t, opSend, o.ch) {
 			return false
 		}
-		if len(o.ch.buf) < o.ch.cap {
-			return true
-		}
-		return o.ch.cap == 0 && s.waiter(opRecv, o.ch, t) != nil
+		return s.sendReady(t, o.ch)
 	case opRecv:
 		if o.ch == nil {
 			return false
@@ -426,10 +452,20 @@ func (s *Sched) enabled(t *thread) bool {
 		if !s.firstWaiter(t, opRecv, o.ch) {
 			return false
 		}
-		if len(o.ch.buf) > 0 || o.ch.closed {
+		return s.recvReady(t, o.ch)
+	case opSelect:
+		if o.hasDefault {
 			return true
 		}
-		return o.ch.cap == 0 && s.waiter(opSend, o.ch, t) != nil
+		for _, c := range o.cases {
+			if c.ch == nil {
+				continue
+			}
+			if (c.send && s.sendReady(t, c.ch)) || (!c.send && s.recvReady(t, c.ch)) {
+				return true
+			}
+		}
+		return false
 	case opLock:
 		return !o.mu.writer && o.mu.readers == 0
 	case opRLock:
@@ -440,12 +476,61 @@ func (s *Sched) enabled(t *thread) bool {
 	return false
 }
 
+// sendReady / recvReady say whether a send / receive by t on ch can complete now.
+func (s *Sched) sendReady(t *thread, ch *chanState) bool {
+	if ch.closed || len(ch.buf) < ch.cap {
+		return true
+	}
+	return ch.cap == 0 && s.waiter(opRecv, ch, t) != nil
+}
+
+func (s *Sched) recvReady(t *thread, ch *chanState) bool {
+	if ch.timer {
+		return !ch.fired
+	}
+	if len(ch.buf) > 0 || ch.closed {
+		return true
+	}
+	return ch.cap == 0 && s.waiter(opSend, ch, t) != nil
+}
+
+// caseOf returns the index of u's select case of the given kind on ch, or -1.
+func caseOf(u *thread, kind opKind, ch *chanState) int {
+	if u.pend == nil || u.pend.kind != opSelect {
+		return -1
+	}
+	for i, c := range u.pend.cases {
+		if c.ch == ch && c.send == (kind == opSend) {
+			return i
+		}
+	}
+	return -1
+}
+
 // waiter returns the earliest-parked thread other than self with a pending
-// operation of the given kind on ch.
+// operation of the given kind on ch (a plain operation or a select case).
 func (s *Sched) waiter(kind opKind, ch *chanState, self *thread) *thread {
 	var best *thread
 	for _, u := range s.threads {
-		if u == self || u.done || u.pend == nil || u.pend.kind != kind || u.pend.ch != ch {
+		if u == self || u.done || u.pend == nil {
+			continue
+		}
+		plain := u.pend.kind == kind && u.pend.ch == ch
+		if !plain && caseOf(u, kind, ch) < 0 {
+			continue
+		}
+		if best == nil || u.parkSeq < best.parkSeq {
+			best = u
+		}
+	}
+	return best
+}
+
+// plainWaiter is waiter restricted to plain (non-select) operations.
+func (s *Sched) plainWaiter(kind opKind, ch *chanState) *thread {
+	var best *thread
+	for _, u := range s.threads {
+		if u.done || u.pend == nil || u.pend.kind != kind || u.pend.ch != ch {
 			continue
 		}
 		if best == nil || u.parkSeq < best.parkSeq {
@@ -458,7 +543,7 @@ func (s *Sched) waiter(kind opKind, ch *chanState, self *thread) *thread {
 // firstWaiter says whether t is the earliest-parked thread with this kind of
 // operation on ch (Go queues blocked senders and receivers first-come first-served).
 func (s *Sched) firstWaiter(t *thread, kind opKind, ch *chanState) bool {
-	w := s.waiter(kind, ch, nil)
+	w := s.plainWaiter(kind, ch)
 	return w == nil || w == t
 }
 
@@ -470,35 +555,38 @@ func (s *Sched) apply(t *thread) {
 	switch o.kind {
 	case opSend:
 		obj = fmt.Sprintf("ch%d", o.ch.id)
-		switch {
-		case o.ch.closed:
-			t.inject = "send on closed channel"
-		case o.ch.cap == 0:
-			r := s.waiter(opRecv, o.ch, t)
-			r.result, r.ok = o.val, true
-			r.pend = &op{kind: opResume}
-			r.hist = mix(r.hist, uint64(opRecv)+1, uint64(o.ch.id)+1, o.valHash(), 1)
-		default:
-			o.ch.buf = append(o.ch.buf, o.val)
-			o.ch.bufH = append(o.ch.bufH, o.valHash())
-		}
+		s.doSend(t, o.ch, o.val, o.valHash())
 	case opRecv:
 		obj = fmt.Sprintf("ch%d", o.ch.id)
-		switch {
-		case len(o.ch.buf) > 0:
-			t.result, t.ok = o.ch.buf[0], true
-			t.resH = o.ch.bufH[0]
-			o.ch.buf = o.ch.buf[1:]
-			o.ch.bufH = o.ch.bufH[1:]
-		case o.ch.closed:
-			t.result, t.ok = nil, false
-			t.resH = 1
-		default:
-			w := s.waiter(opSend, o.ch, t)
-			t.result, t.ok = w.pend.val, true
-			t.resH = w.pend.valHash()
-			w.pend = &op{kind: opResume}
-			w.hist = mix(w.hist, uint64(opSend)+1, uint64(o.ch.id)+1)
+		s.doRecv(t, o.ch)
+	case opSelect:
+		var ready []int
+		for i, c := range o.cases {
+			if c.ch == nil {
+				continue
+			}
+			if (c.send && s.sendReady(t, c.ch)) || (!c.send && s.recvReady(t, c.ch)) {
+				ready = append(ready, i)
+			}
+		}
+		t.selIdx = -1
+		if len(ready) > 0 {
+			k := 0
+			if len(ready) > 1 {
+				// Go picks among the ready cases at random: all are explored
+				k = s.take(len(ready), true, true, false, "select")
+			}
+			i := ready[k]
+			c := o.cases[i]
+			t.selIdx = i
+			obj = fmt.Sprintf("case%d:ch%d", i, c.ch.id)
+			if c.send {
+				s.doSend(t, c.ch, c.val, c.vh)
+			} else {
+				s.doRecv(t, c.ch)
+			}
+		} else {
+			obj = "default"
 		}
 	case opClose:
 		if o.ch == nil {
@@ -538,6 +626,20 @@ func (s *Sched) apply(t *thread) {
 			okv = 1
 		}
 		t.hist = mix(t.hist, uint64(opRecv)+1, chid, t.resH, okv)
+	case opSelect:
+		t.hist = mix(t.hist, uint64(opSelect)+1, uint64(t.selIdx))
+		if t.selIdx >= 0 {
+			c := o.cases[t.selIdx]
+			if c.send {
+				t.hist = mix(t.hist, uint64(opSend)+1, uint64(c.ch.id)+1)
+			} else {
+				okv := uint64(0)
+				if t.ok {
+					okv = 1
+				}
+				t.hist = mix(t.hist, uint64(opRecv)+1, uint64(c.ch.id)+1, t.resH, okv)
+			}
+		}
 	case opLock, opRLock:
 		t.hist = mix(t.hist, uint64(o.kind)+1, uint64(o.mu.id))
 		o.mu.hist = mix(o.mu.hist, uint64(t.id)+1, uint64(o.kind))
@@ -549,6 +651,59 @@ func (s *Sched) apply(t *thread) {
 	s.x.traceSum = s.x.traceSum*1099511628211 + uint64(t.id)*31 + uint64(o.kind)*7 + hashString(obj)
 	if s.keepTrace {
 		s.x.Trace = append(s.x.Trace, fmt.Sprintf("%s:%s:%s", t.name, opNames[o.kind], obj))
+	}
+}
+
+// doSend completes a send by t (plain or a select case).
+func (s *Sched) doSend(t *thread, ch *chanState, val interface{}, vh uint64) {
+	switch {
+	case ch.closed:
+		t.inject = "send on closed channel"
+	case ch.cap == 0:
+		r := s.waiter(opRecv, ch, t)
+		if i := caseOf(r, opRecv, ch); i >= 0 {
+			r.selIdx = i
+			r.hist = mix(r.hist, uint64(opSelect)+1, uint64(i))
+		}
+		r.result, r.ok, r.resH = val, true, vh
+		r.pend = &op{kind: opResume}
+		r.hist = mix(r.hist, uint64(opRecv)+1, uint64(ch.id)+1, vh, 1)
+	default:
+		ch.buf = append(ch.buf, val)
+		ch.bufH = append(ch.bufH, vh)
+	}
+}
+
+// doRecv completes a receive by t (plain or a select case).
+func (s *Sched) doRecv(t *thread, ch *chanState) {
+	switch {
+	case ch.timer:
+		if s.now.Before(ch.wake) {
+			s.now = ch.wake
+		}
+		ch.fired = true
+		t.result, t.ok, t.resH = s.now, true, uint64(s.now.UnixNano())
+	case len(ch.buf) > 0:
+		t.result, t.ok = ch.buf[0], true
+		t.resH = ch.bufH[0]
+		ch.buf = ch.buf[1:]
+		ch.bufH = ch.bufH[1:]
+	case ch.closed:
+		t.result, t.ok = nil, false
+		t.resH = 1
+	default:
+		w := s.waiter(opSend, ch, t)
+		if i := caseOf(w, opSend, ch); i >= 0 {
+			c := w.pend.cases[i]
+			t.result, t.ok, t.resH = c.val, true, c.vh
+			w.selIdx = i
+			w.hist = mix(w.hist, uint64(opSelect)+1, uint64(i))
+		} else {
+			t.result, t.ok = w.pend.val, true
+			t.resH = w.pend.valHash()
+		}
+		w.pend = &op{kind: opResume}
+		w.hist = mix(w.hist, uint64(opSend)+1, uint64(ch.id)+1)
 	}
 }
 
@@ -629,7 +784,12 @@ func (s *Sched) run(body func()) *X {
 			runnable = true
 		}
 		for _, t := range s.threads {
-			if t != s.last && s.enabled(t) {
+			if t != s.last && !t.low && s.enabled(t) {
+				en = append(en, t)
+			}
+		}
+		for _, t := range s.threads {
+			if t != s.last && t.low && s.enabled(t) {
 				en = append(en, t)
 			}
 		}
@@ -689,10 +849,13 @@ func (s *Sched) run(body func()) *X {
 }
 
 // chanOf returns the model state of a channel, registering it at first use.
-func (s *Sched) chanOf(key interface{}, capacity int) *chanState {
+func (s *Sched) chanOf(key interface{}, capacity int, pin ...interface{}) *chanState {
 	c, ok := s.chans[key]
 	if !ok {
 		c = &chanState{id: len(s.chans), cap: capacity}
+		if len(pin) > 0 {
+			c.pin = pin[0]
+		}
 		s.chans[key] = c
 	}
 	return c
